@@ -48,6 +48,8 @@ func propC16(p *Prog, r *Report) {
 	c16Blocking(p, r)
 	c16Structure(p, r)
 	c15RunFirst(p, r, "C16.g")
+	r.Rule("C16.h", "an accepted job is never given up by Send: the only Done channel its select waits on is the pool's own context")
+	c16SendKeepsAcceptedJobs(p, r, "C16.h")
 }
 
 // goBody is the body of a goroutine a function starts: a function literal, or a function / method of the
